@@ -6,12 +6,12 @@ from lib.coqterm import cbytes, cbool, cN, clist, copt, hx, unhx
 
 ID = "C19"
 QUICK_N = 2000
-THOROUGH_N = 40000
+THOROUGH_N = 20000
 SHARD = 200
 RULE = ("35% hdr: byte strings for NextLayer._get_host_header built from an HTTP token dictionary (request lines, Host field "
         "lines with every OWS/case/obs-fold variant, empty values, bare CR/LF, VT/FF, non-ASCII) incl. truncations and random "
         "mutations; 5% port: strings for the :digits$ test (ASCII and Unicode decimal digits, invalid UTF-8, trailing LF); "
-        "25% dec: _ignore_connection on (peername, address, client SNI, WireGuard flag) x ignore/allow pattern sets x first "
+        "3% dec cases around the :digits$ boundary of the Host value with a pattern anchored on one of the two candidate names; 22% dec: _ignore_connection on (peername, address, client SNI, WireGuard flag) x ignore/allow pattern sets x first "
         "flight (HTTP head with Host variants, TLS ClientHello with SNI in 1-3 records, prefixes of both, garbage, server "
         "greeting); 25% run: TransparentProxy / ReverseProxy / Socks5Proxy + real NextLayer + real addon + real "
         "TCPLayer under lib.sansio with eager/lazy connect, segmented first flight, interleaved server data, closes and "
@@ -46,7 +46,7 @@ NAMES = [b"Host", b"host", b"HOST", b"hOsT", b"X-Host", b"Hos", b"Hostx", b"Host
 HDR_TOKENS = [b"\r\n", b"\r\n\r\n", b"\r", b"\n", b"Host:", b"host:", b"Host: ", b" ", b"\t", b"example.com", b"evil.com", b":",
               b"8080", b"GET / HTTP/1.1", b"HTTP/", b"GET", b"\x0b", b"\x0c", b"X: y", b"\xff", b"a", b"\r\nHost:\r\n", b"\r\n\r"]
 LITS = ["example.com", "example", ".com", "192.0.2.1", "evil.com", "binary.example.org", ":443", "example.com:443", ":80",
-        "existing-sni.example", "sni.example", "a.b", "x", "10.0.0.53", "example.org"]
+        "existing-sni.example", "sni.example", "a.b", "x", "10.0.0.53", "example.org", "80a:443", "::443", "::80", "com:80", "8080:"]
 
 
 def _field(rng, name=None, value=None):
@@ -191,6 +191,18 @@ def gen(rng, n, tier):
             tail = rng.choice([b"", b":", b":1", b":443", b":44a", b":\xd9\xa3", b":\xef\xbc\x98\xef\xbc\x99", b":8\n", b":8\n\n", b"::9",
                                b":\xf0\x9d\x9f\x8e", b":\xed\xa0\x80", b":\xc0\xb1", b":1\xff", b":\xe0\xa5\xa6", b":\xe0\xa5", b":12:", b"\n"])
             out.append({"k": "port", "s": hx(base + tail)})
+        elif r < 0.43:
+            # Host values around the :digits$ boundary, with a pattern anchored on one of the two candidate names
+            hv = rng.choice([b"example.com:", b"example.com:80a", b"[::1]", b"example.com:8080", b"example.com", b"a:b:1", b"h:0"])
+            port = rng.choice([443, 80, 8080])
+            cand = rng.choice([hv.decode(), f"{hv.decode()}:{port}"])
+            pat = {"t": rng.choice(["suf", "suf", "lit"]), "s": cand[-rng.randint(3, len(cand)):].lower()}
+            c = {"ignore": [pat] if rng.chance(0.7) else [], "allow": [], "wg": False, "peer": None,
+                 "addr": ["192.0.2.1", port], "csni": None}
+            if not c["ignore"]:
+                c["allow"] = [pat]
+            d = b"GET / HTTP/1.1\r\n" + rng.choice([b"Host: ", b"host:", b"HOST:\t"]) + hv + b"\r\n\r\n"
+            out.append({"k": "dec", "cfg": c, "dc": hx(d), "ds": "", "tag": "http"})
         elif r < 0.65:
             d, tag = _first_flight(rng)
             if rng.chance(0.35) and d:
@@ -722,8 +734,8 @@ def _ref_names(c, dc, ds, tag):
     if rh is not None:
         if rh[1] is not None:
             v = rh[1][0].decode("utf-8", "surrogateescape")
-            if not v or any(ch in v for ch in " \t"):
-                return None
+            if not v or any(ch in v for ch in " \t") or not rh[1][0].isascii():
+                return None          # RFC 9110 Host = uri-host [ : port ] is ASCII; other values are not judged
             names.append(v if _re.search(r":[0-9]+$", v) else f"{v}:{port}")
     elif tag == "tls":
         sni = _ref_sni(dc)
